@@ -19,8 +19,22 @@ theorem pick_returns_src : pick_returns = "nil | h.activeUpstreams[i]" := by dec
 theorem refresh_no_fallbacks_src : refresh_no_fallbacks_cond = "len(h.fallbacks) == 0" := by decide
 /-- `healthcheck`: skipped when in backoff, else error or active; the active list is replaced. -/
 def healthcheckIfCondsExpected : String :=
-  "strings.Contains(domain, randomPlaceholder) | inBackoff | ckErr != nil | len(activeUps) == 0"
+  "strings.Contains(domain, randomPlaceholder) | roundIsOver(ctx) | status.lastFailedHealthcheck.IsZero() | inBackoff | ckErr != nil | len(activeUps) == 0"
+set_option maxRecDepth 4096 in
 theorem healthcheck_if_conds_src : healthcheck_if_conds = healthcheckIfCondsExpected := by decide
+/-- As fixed: an upstream whose turn comes when the context of the round is done is not probed; it
+stays on the active list iff no failure is recorded for it. -/
+theorem healthcheck_ctx_done_cond_src : healthcheck_ctx_done_cond = "roundIsOver(ctx)" := by decide
+/-- The round is over when the context is done or its deadline has passed (the deadline is looked
+at directly: a probe that gets no response ends at that very moment, possibly before the timer of
+the context has fired). -/
+theorem round_is_over_returns_src :
+    round_is_over_returns = "true | hasDeadline && !time.Now().Before(deadline)" := by decide
+theorem round_is_over_cond_src : round_is_over_cond = "ctx.Err() != nil" := by decide
+theorem healthcheck_kept_cond_src :
+    healthcheck_kept_cond = "status.lastFailedHealthcheck.IsZero()" := by decide
+theorem healthcheck_kept_append_src :
+    healthcheck_kept_append = "append(activeUps, status.upstream)" := by decide
 theorem healthcheck_active_assign_src : healthcheck_active_assign = "activeUps" := by decide
 theorem healthcheck_active_append_src :
     healthcheck_active_append = "append(activeUps, status.upstream)" := by decide
